@@ -888,7 +888,7 @@ HEADER = '''/- GENERATED by tools/py2gm.py from src/mbi/graphical_model.py — d
    once; `logZ` and `beliefPropagation` = the two exits, both starting from it), `variable_elimination_logspace`,
    `variable_elimination`, `GraphicalModel.datavector` (flatten=True) and `GraphicalModel.mle`.
    Python dictionaries are association lists in insertion order; `d[k] = v` keeps the position of an existing key.
-   NOT translated: __init__ (its fields `cliques`, `message_order`, `total`, `domain` are inputs; `sep_axes[(i,j)]` is read as
+   NOT translated here: __init__ (translated by tools/py2gminit.py -> GraphicalModelInitG.lean, composed in Properties/C01E.lean; here its fields `cliques`, `message_order`, `total`, `domain` are inputs; `sep_axes[(i,j)]` is read as
    `JT.inter i j`, which junction_tree.py is checked to define up to the order of the tuple), save, load, project (calls
    greedy_order, whose result the theorems do not depend on), krondot, calculate_many_marginals, fit, synthetic_data, greedy_order.
    Unordered values: `sep_axes[(i,j)] = tuple(set(i)&set(j))` has no specified order; it is only passed to `Domain.invert`, which reads
